@@ -51,6 +51,16 @@ def sh(cmd, cwd=None, env=None, timeout=None, check=True):
     return p
 
 
+def copy_lock(dst):
+    """Cargo.lock is untracked in the repository: use the tree's own when it is
+    there (same dependency versions as the test suite), else /repo's, else let
+    cargo resolve offline from the local registry."""
+    for src in (os.path.join(REPO, "Cargo.lock"), "/repo/Cargo.lock"):
+        if os.path.exists(src):
+            shutil.copy(src, dst)
+            return
+
+
 # --------------------------------------------------------------------------
 # cases
 
@@ -380,7 +390,7 @@ class Run:
             open(os.path.join(vsrc, "src", "main.rs"), "w").write(mt)
         lock = os.path.join(vsrc, "Cargo.lock")
         if not os.path.exists(lock):
-            shutil.copy(os.path.join(REPO, "Cargo.lock"), lock)
+            copy_lock(lock)
         with open(os.path.join(VERIF, ".cache", "vdump%s.lock" % tag), "w") as lf:
             fcntl.flock(lf, fcntl.LOCK_EX)
             p = sh(["cargo", "build", "--offline", "--manifest-path", os.path.join(vsrc, "Cargo.toml"),
@@ -416,7 +426,7 @@ class Run:
         self.crate = os.path.join(self.dir, "h")
         shutil.copytree(os.path.join(VERIF, "harness"), self.crate)
         shutil.copy(self.gen_rs, os.path.join(self.crate, "src", "gen.rs"))
-        shutil.copy(os.path.join(REPO, "Cargo.lock"), os.path.join(self.crate, "Cargo.lock"))
+        copy_lock(os.path.join(self.crate, "Cargo.lock"))
         # private snapshot of the memchr contract model as well
         mm = os.path.join(self.dir, "memchr-model")
         shutil.copytree(os.path.join(VERIF, "memchr-model"), mm, ignore=shutil.ignore_patterns("target", "Cargo.lock"),
